@@ -18,7 +18,7 @@ META = {
     "title": "purity under access histories",
     "level": "model_checking",
     "bounds": {
-        "quick": {"configurations": "CAT x MR(3, transforms by alias / sub-variable id, explicit order with a stale id, id-less insertions, hide), CAT x CAT with insertions and numeric values, 3-D CAT x MR x CAT sharing one transforms dict across partitions, MR strand",
+        "quick": {"configurations": "CAT x MR(3, transforms by alias / sub-variable id, explicit order with a stale id, id-less insertions, hide), CAT x CAT with insertions and numeric values, CAT strand with sum and difference subtotals, 3-D CAT x MR x CAT sharing one transforms dict across partitions, MR strand",
                   "schedules (enumerated)": "every property after a full warm-up in alphabetical and in reverse order; all ordered pairs (Q then P) over 24 key properties; every property read twice; two partitions interleaved; a second and third cube built from the SAME response / transforms objects after use; dict vs {'value': ...} envelope vs JSON text; cached arrays re-read after all other reads",
                   "data (solver)": "all weighted counts symbolic: every value read under a schedule is proved equal to the value of a fresh evaluation on pristine copies"},
         "thorough": {"schedules (enumerated)": "all ordered pairs over ALL public properties", "configurations": "same", "data (solver)": "same"},
@@ -81,6 +81,12 @@ def build(config, eng):
         tr = {"rows_dimension": {"order": {"type": "explicit", "element_ids": ["beta", 77, "0007"]}, "elements": {"alpha": {"name": "A!"}}},
               "columns_dimension": {"insertions": [{"anchor": "bottom", "function": "subtotal", "name": "all", "args": [1, 2]}]}}
         return w.response(), tr, 0, 2
+    if config == "cat_strand":
+        # a strand with a sum and a difference subtotal (the population measures blank the difference row)
+        w = CellWorld(eng, [("cat", "a", 3, {"missing_at": (1,), "insertions": [S("s12", [1, 2], anchor=2), D("d3-1", [3], [1], anchor="top")],
+                                             "numeric_values": {1: 1, 2: 2, 3: 4}})], w_strict=True)
+        tr = {"rows_dimension": {"order": {"type": "explicit", "element_ids": [3, 1]}}}
+        return w.response(), tr, 0, 1
     if config == "mr_strand":
         w = CellWorld(eng, [("mr", "m", 3, {})], w_strict=True)
         w.vars[0].item_aliases = ["alpha", "beta", "gamma"]
@@ -183,7 +189,7 @@ def scenario(eng, config="cat_x_mr", all_pairs=False, light=False):
 
 def specs(tier):
     out = []
-    for cfg in ("cat_x_mr", "cat_x_cat", "3d", "mr_strand", "waves"):
+    for cfg in ("cat_x_mr", "cat_x_cat", "3d", "mr_strand", "cat_strand", "waves"):
         out.append(dict(module="props.c18", fn="scenario", name="%s schedules" % cfg,
                         params=dict(config=cfg, all_pairs=(tier == "thorough" and cfg not in ("3d", "waves")), light=(cfg in ("3d", "waves"))), max_paths=60, vc_timeouts=(5, 40)))
     return out
